@@ -91,6 +91,14 @@ def custom_sample(inp):
     scale = float(inp.get("cov_scale", 0.15))
     cov = pd(g, n, scale) if not inp.get("diag_cov", False) else np.diag(g.uniform(0.3, 1.5, n) * scale ** 2)
     mag = float(inp.get("M", 19.0)) + mu + g.multivariate_normal(np.zeros(n), cov)
+    # (own stream, derived from the data seed) half of the samples list the supernovae in another order than by redshift (discovery order),
+    # and 40% hand the covariance over column-major (a transposed / Fortran-ordered array, e.g. a catalogue sub-selection cov[sel][:, sel])
+    g2 = np.random.default_rng([int(inp["data_seed"]), 2222])
+    if n > 1 and g2.random() < 0.5:
+        perm = g2.permutation(n)
+        mag, zh, z, cov = mag[perm], zh[perm], z[perm], cov[np.ix_(perm, perm)]
+    if g2.random() < 0.4:
+        cov = np.asfortranarray(cov)
     return mag, cov, zh, z
 
 
